@@ -2,7 +2,7 @@
 
 Differential check, no reference evaluator: for every query of a bounded family and every semantics-
 preserving rewriting (all permutations of each BGP's triple patterns, operand swap of every join / union
-node, every permutation of the variable names, full IRIs vs two prefix tables, initBindings vs an added
+node, every permutation of the variable names, full IRIs vs three prefix tables, initBindings vs an added
 VALUES row), every sequence of <= 3 evaluations of one prepared query object over 3 graphs, and every
 store configuration (Memory, SimpleMemory, AuditableStore, ReadOnlyGraphAggregate over every 2-partition
 of the data into disjoint graphs), the multiset of solutions must equal that of the base query.
@@ -160,6 +160,15 @@ def prefixed(text, table):
 
 def _prefix(text, pfx):
     import re
+    if pfx == "two":
+        # two prefixes declared for the one namespace, used alternately
+        n = [0]
+
+        def alt(m):
+            n[0] += 1
+            return "%s:%s" % ("e" if n[0] % 2 else "f", m.group(1))
+        body = re.sub(r"<%s([A-Za-z0-9]+)>" % re.escape(EX), alt, text)
+        return "PREFIX e: <%s>\nPREFIX f: <%s>\n%s" % (EX, EX, body)
     body = re.sub(r"<%s([A-Za-z0-9]+)>" % re.escape(EX), lambda m: "%s:%s" % (pfx, m.group(1)), text)
     return "PREFIX %s: <%s>\n%s" % (pfx, EX, body)
 
@@ -170,14 +179,48 @@ def outer_bgp_var(p):
         return None
     node = p
     while node[0] != "bgp":
-        if node[0] in ("opt", "optf", "bind"):
+        if node[0] in ("opt", "optf", "bind", "join", "minus"):
             node = node[1]
         elif node[0] == "filter":
             node = node[2]
         else:
             return None
     vs = {x[1] for tr in node[1] for x in tr if S.is_var(x)}
-    return "x" if "x" in vs else None
+    if "x" not in vs or not _x_only_used_in_scope(p):
+        return None
+    return "x"
+
+
+def _minus_without_x(p):
+    if not isinstance(p, tuple) or not p or p[0] == "bgp":
+        return False
+    if p[0] == "minus" and "x" not in all_vars(p[2]):
+        return True
+    return any(_minus_without_x(c) for c in p[1:] if isinstance(c, tuple) and c and isinstance(c[0], str))
+
+
+def _x_only_used_in_scope(p):
+    """initBindings substitutes ?x everywhere, a VALUES row joins at the top: the two agree only if no expression uses ?x at a place
+    where the pattern itself does not have it in scope (the property excludes such reuse for sub-queries; nested groups are the same case)."""
+    t = p[0]
+    if t == "bgp":
+        return True
+    if t == "filter":
+        return ("x" not in S.expr_vars(p[1]) or "x" in S.scope(p[2])) and _x_only_used_in_scope(p[2])
+    if t in ("opt", "optf", "minus") and "x" in all_vars(p[2]) and "x" not in S.scope(p[1]):
+        return False  # not well-designed in ?x: binding ?x beforehand changes what the right operand matches, joining a VALUES row afterwards does not
+    if t == "optf":
+        return ("x" not in S.expr_vars(p[3]) or "x" in (S.scope(p[1]) | S.scope(p[2]))) and _x_only_used_in_scope(p[1]) and _x_only_used_in_scope(p[2])
+    if t == "bind":
+        return ("x" not in S.expr_vars(p[2]) or "x" in S.scope(p[1])) and _x_only_used_in_scope(p[1])
+    if t in ("values", "valuesfirst", "subsel"):
+        return _x_only_used_in_scope(p[1])
+    if t == "graph":
+        return _x_only_used_in_scope(p[2])
+    if t == "minus":
+        # the right side of MINUS is evaluated on its own: ?x there must be bound there
+        return _x_only_used_in_scope(p[1]) and _x_only_used_in_scope(p[2])
+    return _x_only_used_in_scope(p[1]) and _x_only_used_in_scope(p[2])
 
 
 def skeleton(p):
@@ -205,8 +248,11 @@ def check_program(pat, graphs, only=None):
     evals = 0
     base_q = "SELECT * WHERE { %s }" % S.inner(pat)
     gs = [build(t) for t in graphs]
+    # each query text is parsed once and the parsed query evaluated on every graph (parsing dominates the cost); a difference found this
+    # way is re-evaluated from a fresh parse before it is classified (a leak between evaluations belongs to the prepared-query clause)
     try:
-        base = [evaluate(g, base_q) for g in gs]
+        base_p = prepareQuery(base_q)
+        base = [evaluate(g, base_p) for g in gs]
     except Exception as e:  # noqa: BLE001
         return ([{"sig": "base-query-raises|%s" % type(e).__name__, "detail": {"query": base_q, "exc": repr(e)[:200]}, "case": {"pattern": pat, "variant": "base"}}], 0, False)
     evals += len(gs)
@@ -229,7 +275,7 @@ def check_program(pat, graphs, only=None):
         if not S.legal(rp):
             continue
         variants.append(("variable-renaming", "SELECT * WHERE { %s }" % S.inner(rp), {b: a for a, b in m.items()}, {}))
-    for table in ("e", ""):
+    for table in ("e", "", "two"):
         variants.append(("prefixed-names", _prefix(base_q, table), None, {}))
     x = outer_bgp_var(pat)
     if x:
@@ -239,23 +285,43 @@ def check_program(pat, graphs, only=None):
     if only:
         variants = [v for v in variants if v[0] in only]
     for kind, q, back, kw in variants:
+        try:
+            qp = prepareQuery(q)
+            vqp = prepareQuery(kw["values_query"]) if kind == "initBindings-vs-VALUES" else None
+        except Exception as e:  # noqa: BLE001
+            viols.append({"sig": "%s|raises|%s|%s" % (kind, type(e).__name__, skeleton(pat)), "detail": {"query": q, "exc": repr(e)[:200]},
+                          "case": {"pattern": pat, "variant": kind, "query": q, "graph": graphs[0]}})
+            continue
         for gi, g in enumerate(gs):
             evals += 1
             try:
                 if kind == "initBindings-vs-VALUES":
-                    got = evaluate(g, q, initBindings=kw["initBindings"])
-                    want = evaluate(g, kw["values_query"])
+                    got = evaluate(g, qp, initBindings=kw["initBindings"])
+                    want = evaluate(g, vqp)
+                    if got != want:
+                        got, want = evaluate(g, q, initBindings=kw["initBindings"]), evaluate(g, kw["values_query"])
                 else:
-                    got = evaluate(g, q)
+                    got = evaluate(g, qp)
                     want = base[gi]
                     if back:
                         got = Counter({frozenset((back.get(a, a), b) for a, b in k): n for k, n in got.items()})
+                    if got != want:
+                        got, want = evaluate(g, q), evaluate(g, base_q)
+                        if back:
+                            got = Counter({frozenset((back.get(a, a), b) for a, b in k): n for k, n in got.items()})
+                        if got == want:
+                            viols.append({"sig": "prepared-query|reused-parse-differs-from-fresh-parse|%s" % skeleton(pat), "detail": {"query": q, "graph_index": gi},
+                                          "case": {"pattern": pat, "variant": kind, "query": q, "graph": graphs[gi]}})
+                            break
             except Exception as e:  # noqa: BLE001
                 viols.append({"sig": "%s|raises|%s|%s" % (kind, type(e).__name__, skeleton(pat)), "detail": {"query": q, "exc": repr(e)[:200]},
                               "case": {"pattern": pat, "variant": kind, "query": q, "graph": graphs[gi]}})
                 break
             if got != want:
-                viols.append({"sig": "%s|answers-differ|%s" % (kind, skeleton(pat)),
+                cls = skeleton(pat)
+                if kind == "initBindings-vs-VALUES" and _minus_without_x(pat):
+                    cls = "minus-whose-right-side-does-not-mention-the-variable"
+                viols.append({"sig": "%s|answers-differ|%s" % (kind, cls),
                               "detail": {"base_query": base_q if kind != "initBindings-vs-VALUES" else kw["values_query"], "variant_query": q,
                                          "base": sorted(map(repr, want.elements())), "variant": sorted(map(repr, got.elements()))},
                               "case": {"pattern": pat, "variant": kind, "query": q, "graph": graphs[gi]}})
@@ -297,6 +363,7 @@ def check_prepared(pat, graphs3):
 def check_stores(q, graphs, label):
     viols = []
     n = 0
+    qtext, q = q, prepareQuery(q)  # parsed once for all configurations; a difference is re-evaluated from the text
     for triples in graphs:
         base = evaluate(build(triples), q)
         configs = [("SimpleMemory", None), ("Auditable", None)] + [("aggregate", part) for part in range(0, 2 ** len(triples)) if len(triples) <= 5]
@@ -305,13 +372,19 @@ def check_stores(q, graphs, label):
             try:
                 got = evaluate(build(triples, cfg, part), q)
             except Exception as e:  # noqa: BLE001
-                viols.append({"sig": "store|%s|raises|%s|%s" % (cfg, type(e).__name__, label), "detail": {"query": q, "exc": repr(e)[:200]},
-                              "case": {"store_query": q, "config": cfg, "partition": part, "graph": triples, "label": label}})
+                viols.append({"sig": "store|%s|raises|%s|%s" % (cfg, type(e).__name__, label), "detail": {"query": qtext, "exc": repr(e)[:200]},
+                              "case": {"store_query": qtext, "config": cfg, "partition": part, "graph": triples, "label": label}})
                 continue
             if got != base:
+                got, base2 = evaluate(build(triples, cfg, part), qtext), evaluate(build(triples), qtext)
+                if got == base2:
+                    viols.append({"sig": "prepared-query|reused-parse-differs-from-fresh-parse|%s" % label, "detail": {"query": qtext},
+                                  "case": {"store_query": qtext, "config": cfg, "partition": part, "graph": triples, "label": label}})
+                    continue
+            if got != base:
                 viols.append({"sig": "store|%s|answers-differ|%s" % (cfg, label),
-                              "detail": {"query": q, "memory": sorted(map(repr, base.elements())), cfg: sorted(map(repr, got.elements())), "partition": part},
-                              "case": {"store_query": q, "config": cfg, "partition": part, "graph": triples, "label": label}})
+                              "detail": {"query": qtext, "memory": sorted(map(repr, base.elements())), cfg: sorted(map(repr, got.elements())), "partition": part},
+                              "case": {"store_query": qtext, "config": cfg, "partition": part, "graph": triples, "label": label}})
     return viols, n
 
 
@@ -389,7 +462,7 @@ def run(ctx):
     ctx.cov["violating_by_signature"] = dict(counts.most_common(40))
     ctx.cov["exhaustive"] = True
     ctx.cov["rule"] = ("%d queries (all C04 patterns with <=1 operator%s) x {every permutation of each BGP, every join/union operand swap, every permutation of variable names, "
-                       "2 prefix tables, initBindings vs VALUES for ?x bound by the outermost BGP} x %d graphs; + %d joins/unions of a BGP with every one-operator pattern x {operand swap, BGP permutation, prefixes}; %d prepared queries x every sequence of <=3 evaluations over 3 graphs "
+                       "3 prefix tables (one with two prefixes for the same namespace), initBindings vs VALUES for ?x bound by the outermost BGP} x %d graphs; + %d joins/unions of a BGP with every one-operator pattern x {operand swap, BGP permutation, prefixes}; %d prepared queries x every sequence of <=3 evaluations over 3 graphs "
                        "(with initBindings at each position); %d queries (patterns, property paths, aggregates) x {SimpleMemory, AuditableStore, ReadOnlyGraphAggregate over every "
                        "2-partition}. Oracle: multiset equality with the base query. Non-trivial: base answer non-empty on >=1 graph." % (
                            len(progs), " + a slice with 2" if thorough else "", len(GRAPHS), len(jf), len(prep), len(sq)))
@@ -413,7 +486,7 @@ def replay(ctx, case):
 
 META = {
     "text": "Exhaustive differential check on the real engine: for every query of a bounded family, every rewriting of each listed kind is generated completely (all "
-            "permutations of each BGP, every operand swap, every variable permutation, two prefix tables, initBindings vs VALUES) and evaluated on a graph family; one "
+            "permutations of each BGP, every operand swap, every variable permutation, three prefix tables, initBindings vs VALUES) and evaluated on a graph family; one "
             "prepared query object is driven through every sequence of up to three evaluations over three graphs and compared with fresh parses; the same data is "
             "queried through both in-memory stores, the auditable wrapper and a read-only aggregate over every 2-partition. Multisets of solutions must coincide.",
     "note": "No reference evaluator is involved (C04 covers conformance); small scope: <=1-2 operators, 12 graphs with <=5 triples; disjoint partitions only.",
